@@ -75,6 +75,20 @@ CLAIMS = {
         "before start = a single poll; cancellation sends ABOR, closes the data connection without graceful shutdown and returns ABOR's "
         "replies; no ABOR otherwise. Correspondence: real transfers x cancellation at poll 0..4/never x four methods x both types.",
    note="The lockstep aspect of ABOR (a server that had already completed the transfer) is C02's recorded finding.", ref="DESIGN.md section 7 C12"),
+ "C14": dict(
+   text="Theorems for every API call in every state (any server behaviour, any fault): the transcript events (connect, command written, "
+        "reply framed, listing) and the observer events of the call are interleaved exactly as prescribed - each command announced to "
+        "every registered observer in registration order immediately before it is written, each connect / reply / listing immediately "
+        "after; hence a registered observer's log equals the transcript and an unregistered one is silent. Correspondence: real client "
+        "with three recording observers added / removed at random points of random histories (refused, cancelled, multi-reply calls).",
+   note="Observer registration changes only between calls (add_observer / remove_observer are not modelled as racing with a call).", ref="DESIGN.md section 7 C14"),
+ "C17": dict(
+   text="Theorems for every API call in every state, whatever the server answers, whether connects succeed, whatever the data socket "
+        "delivers, wherever sink / source / write / close fail, returned or thrown: every data or listening descriptor opened during the "
+        "call is closed during it exactly once, descriptors are fresh, no data_connection object survives, and the control socket is "
+        "accounted for by connect / close events. Correspondence: libc interposition (socket/accept/close) on long random histories mixing "
+        "successful, refused, cancelled and failing transfers in all four methods; descriptor count after each call and after destruction.",
+   note="Kernel descriptor semantics are observed, not modelled; TLS data sockets are exercised by the C11/C18 stages.", ref="DESIGN.md section 7 C17"),
 }
 PENDING = "check not built yet (work in progress; see DESIGN.md section 12)"
 
